@@ -361,6 +361,11 @@ func GenExifRec(r *core.Rng, o RecOpts) *ExifRec {
 		x.Add(0x829d, Rational(v))
 		e.F32["Exif.FNumber"] = q32(v)
 		e.Names = append(e.Names, "Exif.FNumber")
+		if r.Chance(1, 3) && q32(v) != 0 { // (an f-number of 0 is "absent": the fallback then applies)
+			// ApertureValue (APEX) next to FNumber: FNumber is the f-number, the APEX value is only a
+			// fallback for files without it, wherever the two values lie in the stream
+			x.Add(0x9202, Rational([2]uint32{uint32(r.Range(0, 16000)), uint32(r.Pick(1, 10, 100, 1000))}))
+		}
 	}
 	if has() {
 		switch r.Intn(3) {
@@ -634,7 +639,9 @@ func GenExifRec(r *core.Rng, o RecOpts) *ExifRec {
 		sd := uint32(r.Pick(1, 1, 10, 100, 1000))
 		sn := uint32(r.Intn(60 * int(sd)))
 		gsec = h*3600 + mi*60 + int(sn/sd)
-		g.Add(0x0007, Rational([2]uint32{uint32(h), 1}, [2]uint32{uint32(mi), 1}, [2]uint32{sn, sd}))
+		// hours and minutes as whole numbers over any denominator (micro-unit writers use 10^6)
+		hd, md := uint32(r.Pick(1, 1, 1, 10, 100, 1000, 100000, 1000000, 100000000)), uint32(r.Pick(1, 1, 1, 10, 100, 1000, 1000000, 60000000))
+		g.Add(0x0007, Rational([2]uint32{uint32(h) * hd, hd}, [2]uint32{uint32(mi) * md, md}, [2]uint32{sn, sd}))
 	}
 	var gdate *dt
 	if has() {
